@@ -111,6 +111,9 @@ class ExprMixin:
             return T(s, txt)
         if name in self.m.ufuns and not self.m.ufuns[name][0]:
             return c.app(name, [], self.m.ufuns[name][1], [])
+        if getattr(self, "spec_mode", False) and name in self.cur_contract.get("locals", {}):
+            # the contract talks about a local the code no longer has (renamed / removed): undecided, not a verdict about the property
+            raise KeyError(f"local '{name}' named by the contract does not exist at this point of the code")
         return c.app("glob_" + name, [], OBJ, [])
 
     def ev_attr(self, n, st, old):
@@ -201,7 +204,7 @@ class ExprMixin:
         return True
 
     PURE_CALLS = {"len", "isinstance", "get", "old", "forall", "exists", "implies", "Some", "mapget", "visited",
-                  "index", "smt", "ite", "startswith", "endswith", "keys", "dom", "contains", "member"}
+                  "index", "iterated", "smt", "ite", "startswith", "endswith", "keys", "dom", "contains", "member"}
 
     def ev_binop(self, n, st, old):
         a = self.ev(n.left, st, old)
